@@ -27,7 +27,11 @@ HEADERS = """
 #include <unifex/repeat_effect_until.hpp>
 #include <unifex/retry_when.hpp>
 #include <unifex/sequence.hpp>
+#include <unifex/config.hpp>
+#if !UNIFEX_NO_COROUTINES
+// (stop_if_requested.hpp includes await_transform.hpp, which needs coroutines: C++20 only)
 #include <unifex/stop_if_requested.hpp>
+#endif
 #include <unifex/stop_when.hpp>
 #include <unifex/then.hpp>
 #include <unifex/unstoppable.hpp>
